@@ -402,7 +402,8 @@ def qPlainCanon (v : Option Str) : Option Str :=
   | none => some []
   | some v =>
     let ms := ((splitList v false []).map trimOWS).filter (!·.isEmpty)
-    let tok (m : Str) : Bool := !m.isEmpty && m.all fun c => isAlpha c || isDigit c || c = '-' || c = '.' || c = '_' || c = '/' || c = '+'
+    -- (bytes outside ASCII — obs-text — are bytes of the member like the letters: no rule of RFC 9110 equates two of them)
+    let tok (m : Str) : Bool := !m.isEmpty && m.all fun c => isAlpha c || isDigit c || c = '-' || c = '.' || c = '_' || c = '/' || c = '+' || c.toNat ≥ 128
     -- a member is a plain token, or a token with parameters "name=token" none of which is a weight ("q"): the
     -- parameters belong to the member ("text/plain;charset=utf-8" is not "text/plain"), their order does not matter
     let parts (m : Str) : List Str := (splitOnComma (m.map fun c => if c = ';' then ',' else c) []).map trimOWS
